@@ -187,3 +187,30 @@ def norm_events(evs):
 
 def show_norm(n):
     return json.dumps(n, default=lambda b: b.hex() if isinstance(b, (bytes, bytearray)) else str(b), sort_keys=True)
+
+
+# ------------------------------------------- hand-made QPACK (RFC 9204, no pylsqpack)
+def prefix_int(value, nbits, flags=0):
+    """RFC 7541 §5.1 prefix integer; `flags` = the bits above the prefix"""
+    limit = (1 << nbits) - 1
+    if value < limit:
+        return bytes([flags | value])
+    out = bytearray([flags | limit])
+    value -= limit
+    while value >= 128:
+        out.append((value & 0x7F) | 0x80)
+        value >>= 7
+    out.append(value)
+    return bytes(out)
+
+
+def qpack_literal_block(headers):
+    """encoded field section using only 'literal field line with literal name'
+    (RFC 9204 §4.5.6, no Huffman, no dynamic table): prefix 00 00, then per field
+    001N H NameLen(3+) name, H ValueLen(7+) value.  Independent of pylsqpack's
+    encoder, which refuses e.g. very long values that its decoder accepts."""
+    out = bytearray(b"\x00\x00")
+    for name, value in headers:
+        out += prefix_int(len(name), 3, 0x20) + name
+        out += prefix_int(len(value), 7, 0x00) + value
+    return bytes(out)
